@@ -536,6 +536,8 @@ type logicalLineType =
 
 val all_LogicalLineType : logicalLineType list
 
+val keywordKind_is_numeric_operator : keywordKind -> bool
+
 val commentKind_is_singleline : commentKind -> bool
 
 val conditionalDirectiveKind_is_if : conditionalDirectiveKind -> bool
@@ -1331,6 +1333,79 @@ val consolidate_pass : nat list list -> nat list list -> nat list list
 
 val parse_file_lines :
   (nat -> bool) -> nat -> nat list list list -> nat list list
+
+val lT_G : tokenType
+
+val gT_G : tokenType
+
+val set_nth0 : nat -> tokenType -> tokenType list -> tokenType list
+
+type arm =
+| A_Lt
+| A_Comma
+| A_Plain
+| A_Gt
+| A_LBrack
+| A_RBrack
+| A_InBrack
+| A_Break
+
+val arm_of : tokenType option -> bool -> nat -> arm
+
+val gt_blocked : tokenType option -> bool
+
+val pws_next : tokenType option -> bool -> bool
+
+val rbrack_pop : (nat * nat) list -> nat -> (nat * nat) list * nat
+
+type ires =
+| I_Done of tokenType list * nat
+| I_Fuel
+| I_Panic
+
+val generics_inner :
+  nat -> tokenType list -> (nat * nat) list -> bool -> bool -> nat -> nat ->
+  ires
+
+type gres =
+| G_Ok of tokenType list
+| G_Fuel
+| G_Panic
+
+val is_less_than : tokenType option -> bool
+
+val generics_outer : nat -> tokenType list -> nat -> gres
+
+val generics_run : tokenType list -> gres
+
+val generics_consolidate : tokenType list -> tokenType list
+
+type decisionRequirement =
+| DR_Indifferent
+| DR_Invalid
+| DR_MustBreak
+| DR_MustNotBreak
+
+val formatting_invariant :
+  tokenType option -> tokenType option -> bool -> decisionRequirement option
+
+val cd_outside_line : nat list -> nat -> bool
+
+val token_type_for_line_index :
+  tokenType list -> nat list -> nat -> tokenType option
+
+val prev_token_type_for_line_index :
+  tokenType list -> nat list -> nat -> tokenType option
+
+val get_formatting_invariant :
+  tokenType list -> nat list -> nat -> decisionRequirement option
+
+val respects : decisionRequirement option -> bool -> bool
+
+val line_violations : tokenType list -> bool list -> nat list -> nat list
+
+val lines_violations :
+  tokenType list -> bool list -> nat list list -> nat list
 
 module MLStringJoin :
  sig
